@@ -1,0 +1,35 @@
+//! Verification hooks (misc): sharding port-range functions (H-SHARD-RANGE) and the
+//! retry request-info constructor (H-RETRY-INFO); see `verif/mod.rs`.
+
+use std::collections::HashMap;
+
+use crate::routing::{Shard, ShardAwarePortRange, ShardInfo, Sharder};
+
+/// Pass-through to the crate-private `Sharder::draw_source_port_for_shard_from_range`.
+pub fn draw_source_port_for_shard_from_range(
+    sharder: &Sharder,
+    shard: Shard,
+    port_range: &ShardAwarePortRange,
+) -> Option<u16> {
+    sharder.draw_source_port_for_shard_from_range(shard, port_range)
+}
+
+/// Pass-through to the crate-private `Sharder::iter_source_ports_for_shard_from_range`.
+pub fn iter_source_ports_for_shard_from_range(
+    sharder: &Sharder,
+    shard: Shard,
+    port_range: &ShardAwarePortRange,
+) -> Vec<u16> {
+    sharder
+        .iter_source_ports_for_shard_from_range(shard, port_range)
+        .collect()
+}
+
+/// The production parser of the SUPPORTED sharding options; returns (shard, nr_shards, msb_ignore).
+pub fn shard_info_from_options(
+    options: &HashMap<String, Vec<String>>,
+) -> Result<(u16, u16, u8), String> {
+    ShardInfo::try_from(options)
+        .map(|i| (i.shard, i.nr_shards.get(), i.msb_ignore))
+        .map_err(|e| format!("{e:?}"))
+}
